@@ -12,6 +12,7 @@ namespace net
   Run::~Run()
   {
     smt::verif::on_record = nullptr;
+    smt::verif::on_new_clause = nullptr;
     self = nullptr;
     // the SUT objects are deliberately not destroyed: the child process exits right after the run
   }
@@ -19,7 +20,22 @@ namespace net
   void Run::hook(const smt::sat_core &, const std::vector<lit> &c)
   {
     if (self)
+    {
       self->pending_clauses.push_back(c);
+      if (self->enabled & O_N11)
+      {
+        sim::layout::Suspend s;
+        self->all_clauses.push_back(c);
+      }
+    }
+  }
+  void Run::hook_new_clause(const smt::sat_core &, const std::vector<lit> &c)
+  {
+    if (self && (self->enabled & O_N11))
+    {
+      sim::layout::Suspend s;
+      self->all_clauses.push_back(c);
+    }
   }
 
   void Run::setup(long dl_size, long th_mask, long th_order)
@@ -62,6 +78,7 @@ namespace net
     blist.push_back(smt::FALSE_var);
     bknown.insert(smt::FALSE_var);
     smt::verif::on_record = &Run::hook;
+    smt::verif::on_new_clause = &Run::hook_new_clause;
     tr("setup dl_size=" + std::to_string(dl_size) + " th_mask=" + std::to_string(th_mask));
   }
 
